@@ -11,7 +11,8 @@
      Wsum / WXsum / W2sum    sum w, sum w*x, sum w^2;   Dev m = sum w*(x-m)^2
    All statements are by induction over the slot list, hence for every k >= 2; k = 1 has its own statement. *)
 From Coq Require Import Reals ZArith Bool List Lra Lia PrimFloat.
-From PR Require Import Base.Num Base.RNum Base.F64 Model.Weights Proofs.C04_weights Proofs.C04_generic.
+From PR Require Import Base.Num Base.RNum Base.F64 Model.Weights Gen.GenC04 Proofs.C04_weights Proofs.C04_generic
+     Proofs.C04_gen Proofs.C04_knn.
 Import ListNotations.
 Open Scope R_scope.
 
@@ -217,3 +218,91 @@ Proof.
   - apply observe_plain.
 Qed.
 Print Assumptions C04_call_structure.
+
+(* ---- tie to the source by the translator: Gen/GenC04.v is regenerated from /repo's kd_tree.py on every run.
+   The loop bodies of _resample_with_weights / _calculate_uncertainty (single- and multi-channel branch), the
+   normalisation block, the final estimator block and the closure of resample_gauss, read for one location /
+   column / neighbour slot, are the steps of the model.  [lit OP 0 0 = ofZ OP 0] (the literal 0.0 is the carrier's
+   zero) holds in both instances (C04_literal_zero). *)
+Theorem C04_literal_zero : lit RO 0 0 = ofZ RO 0 /\ lit F64 0 0 = ofZ F64 0.
+Proof. exact (conj lit_zero_RO lit_zero_F64). Qed.
+Print Assumptions C04_literal_zero.
+Theorem C04_generated_steps : forall (T : Type) (OP : ops T), lit OP 0 0 = ofZ OP 0 ->
+  (forall miss w x r nm,
+     gen_acc_body OP miss w x r nm = acc_step OP (wtmp OP) (r, nm) (mk_slot (negb miss) w x) /\
+     gen_acc_body_multi OP miss w x r nm = acc_step OP (wtmp OP) (r, nm) (mk_slot (negb miss) w x)) /\
+  (forall miss w x res c v2 sd,
+     let s := mk_slot (negb miss) w x in
+     let u := unc_step OP (wtmp OP) res (v2, sd) s in
+     gen_unc_body OP miss w x res c v2 sd = ((c + (if present s then 1 else 0))%Z, fst u, snd u) /\
+     gen_unc_body_multi OP miss w x res c v2 sd = ((c + (if present s then 1 else 0))%Z, fst u, snd u)) /\
+  (forall wt ss f, mean_of OP wt ss f = gen_normalise OP (fst (acc OP wt ss)) (snd (acc OP wt ss)) f) /\
+  (forall wt cnt ss res,
+     stddev_of OP wt cnt ss res =
+       let v := gen_stddev_final OP cnt (snd (acc OP wt ss)) (fst (unc OP wt res ss)) (snd (unc OP wt res ss)) in
+       (v, if (1 <? cnt)%Z then isnan OP v else true)) /\
+  (forall (valid : bool) v1 v2 sd,
+     gen_stddev_final_multi OP valid v1 v2 sd =
+       if valid then sqrtf OP (mul OP (div OP v1 (sub OP (sq OP v1) v2)) sd) else nan OP).
+Proof.
+  intros T OP H. repeat split.
+  - apply (gen_acc_body_char OP H).
+  - apply (gen_acc_body_multi_char OP H).
+  - apply (gen_unc_body_char OP H).
+  - apply (gen_unc_body_multi_char OP H).
+  - intros. apply mean_of_gen.
+  - intros. apply stddev_of_gen.
+  - intros. apply gen_stddev_final_multi_char.
+Qed.
+Print Assumptions C04_generated_steps.
+(* the accumulators of the model are the iteration of the generated loop bodies over the slot list *)
+Theorem C04_model_iterates_generated_code : forall (T : Type) (OP : ops T), lit OP 0 0 = ofZ OP 0 -> forall res ss,
+  acc OP (wtmp OP) ss =
+    fold_left (fun a s => gen_acc_body OP (negb (present s)) (wgt s) (val s) (fst a) (snd a)) ss (tzero OP, tzero OP) /\
+  (count_of ss, fst (unc OP (wtmp OP) res ss), snd (unc OP (wtmp OP) res ss)) =
+    fold_left (fun a s => gen_unc_body OP (negb (present s)) (wgt s) (val s) res (fst (fst a)) (snd (fst a)) (snd a))
+              ss (0%Z, tzero OP, tzero OP).
+Proof. intros T OP H res ss. split; [apply (acc_is_generated OP H)|apply (unc_count_is_generated OP H)]. Qed.
+Print Assumptions C04_model_iterates_generated_code.
+(* resample_gauss: the closure computes exp of the generated exponent, which is the Gaussian exp(-d^2/sigma^2) *)
+Theorem C04_gauss_closure : forall sigma d, gaussw sigma d = exp (gen_gauss_exponent RO sigma d).
+Proof. exact gauss_closure_char. Qed.
+Print Assumptions C04_gauss_closure.
+
+(* the count is the same for every channel / weight function / data column of a location *)
+Theorem C04_count_channel_independent : forall (T : Type) (OP : ops T) wf wf' n col col' ix ds f f',
+  c_cnt (weighted_col OP wf n col ix ds f) = c_cnt (weighted_col OP wf' n col' ix ds f').
+Proof. exact (@count_channel_independent). Qed.
+Print Assumptions C04_count_channel_independent.
+
+(* ---- composition with the k-nearest-neighbour contract of the query (knn_slots, Proofs/C04_knn.v; D = distance of
+   valid source j from the location): "over the (at most k) nearest valid source locations within the radius" *)
+Theorem C04_knn_fewer_than_k : forall (D : Z -> R) (wf : R -> R) n radius col ix ds f,
+  knn_slots D n radius ix ds -> In n ix ->
+  (0 < Nsum D wf (in_range D n radius) ->
+     c_res (weighted_col RO wf n col ix ds f) = Ssum D wf col (in_range D n radius) / Nsum D wf (in_range D n radius)) /\
+  (Nsum D wf (in_range D n radius) <= 0 -> c_res (weighted_col RO wf n col ix ds f) = f) /\
+  c_cnt (weighted_col RO wf n col ix ds f) = Z.of_nat (length (in_range D n radius)).
+Proof. exact result_over_in_range. Qed.
+Print Assumptions C04_knn_fewer_than_k.
+Theorem C04_knn_nearest : forall (D : Z -> R) (wf : R -> R) n radius col ix ds f,
+  knn_slots D n radius ix ds ->
+  ((0 < Nsum D wf (used n ix) -> c_res (weighted_col RO wf n col ix ds f) = Ssum D wf col (used n ix) / Nsum D wf (used n ix)) /\
+   (Nsum D wf (used n ix) <= 0 -> c_res (weighted_col RO wf n col ix ds f) = f)) /\
+  (forall i, In i (used n ix) -> (0 <= i < n)%Z /\ D i < radius) /\ NoDup (used n ix) /\
+  (forall j, (0 <= j < n)%Z -> D j < radius -> ~ In j (used n ix) ->
+     length (used n ix) = length ix /\ forall i, In i (used n ix) -> D i <= D j).
+Proof.
+  intros D wf n radius col ix ds f K. split; [apply (result_over_used D wf n radius col ix ds f K)|].
+  apply (used_are_nearest D n radius ix ds K).
+Qed.
+Print Assumptions C04_knn_nearest.
+Example C04_knn_ex : knn_slots (fun j => IZR j + 1) 3 (5 / 2) [0%Z; 1%Z; 3%Z] [1; 2; 7] /\ In 3%Z [0%Z; 1%Z; 3%Z].
+Proof.
+  split; [|right; right; left; reflexivity]. constructor.
+  - reflexivity.
+  - intros i d [H|[H|[H|[]]]] Hne; inversion H; subst; try congruence; cbn; repeat split; try lia; lra.
+  - cbn. repeat constructor; cbn; intuition lia.
+  - intros j Hj Hd Hn. assert (E : j = 0%Z \/ j = 1%Z \/ j = 2%Z) by lia.
+    destruct E as [ -> | [ -> | -> ] ]; [exfalso; apply Hn; cbn; auto|exfalso; apply Hn; cbn; auto|cbn in Hd; lra].
+Qed.
